@@ -492,7 +492,7 @@ func c10Run(w *W) {
 }
 
 func init() {
-	register(&Scenario{Name: "close-everything", Prop: "C10", Horizon: time.Hour, Weight: 150, Run: c10Run})
+	register(&Scenario{Name: "close-everything", Prop: "C10", Horizon: time.Hour, Weight: 600, Run: c10Run})
 	// the real OS transports (engine R): hostile and vanishing peers against
 	// tcp / tls+tcp / ws / wss listeners, then every socket is closed and no
 	// goroutine may be left executing library code (W.realCensus)
